@@ -256,7 +256,7 @@ def classify_tests(p):
         ok = taken in ('0',)  # Result::Ok has discriminant 0
         if 'format(' in s or 'must_use(' in s:
             kind = 'join'
-        elif 'from_hex_str' in s or 'from_str::<' in s:
+        elif 'from_hex_str' in s or 'from_str::<' in s or ('parse::<' in s and '::Int>' in s):
             kind = 'int'
         elif 'parse::<bool>' in s:
             kind = 'bool'
@@ -307,7 +307,7 @@ def r64(ctx, prog):
             prefixes.add(fmt(a[1]) if len(a) > 1 else '?')
         hexpath = any(v[0] == 'app' and v[1] == 'discriminant' and v[2][0][0] == 'app' and v[2][0][1].split('::')[-1] == 'strip_prefix' and t == C(1) for v, t in branches_of(eff))
         hexcalls = [a for n, a in calls if n.endswith('from_hex_str')]
-        deccalls = [a for n, a in calls if 'from_str::<' in n and 'Int' in n]
+        deccalls = [a for n, a in calls if ('from_str::<' in n or 'parse::<' in n) and n.rstrip('>').endswith('::Int')]
         if hexpath:
             n_hex += 1
             rest = P_SOME(('app', strips[0][0], tuple(strips[0][1]))) if strips else None
@@ -353,9 +353,12 @@ def r67(ctx, prog):
             continue
         seen += 1
         fmts = [e_[0] for e_ in eff if not e_[0].startswith('<') or '::fmt' in e_[0]]
-        fmts = [d for d in fmts if d.endswith('::fmt') or 'new_debug' in d or 'new_display' in d]
+        # handing a string payload to Formatter::pad / write_str is what `<str as Display>::fmt` does (pad) or its unpadded form
+        raw = [e_[0] for e_ in eff if not e_[0].startswith('<') and 'Formatter' in e_[0] and e_[0].split('::')[-1] in ('pad', 'write_str')
+               and len(e_[2]) > 1 and isinstance(e_[2][1], tuple) and e_[2][1][0] != 'c']
+        fmts = [d for d in fmts if d.endswith('::fmt') or 'new_debug' in d or 'new_display' in d] + raw
         debug = [d for d in fmts if 'fmt::Debug' in d or 'new_debug' in d]
-        display = [d for d in fmts if 'fmt::Display' in d or 'new_display' in d]
+        display = [d for d in fmts if 'fmt::Display' in d or 'new_display' in d or d in raw]
         if nm == 'String':
             ctx.check(bool(debug) and not display, 'R6.7', 'Display:Token::String', 'quoted', 'a string token is displayed quoted and escaped (Debug), never as its bare content (formatting calls %s)' % [d[:70] for d in fmts], span=f.span)
         else:
